@@ -555,4 +555,72 @@ theorem msgcodec_tx_legacy_not_identical (tn fn pwr : Nat) (bits : List Nat) (h1
   have := congrArg List.length hc
   simp at this
 
+/-! ## version 2 with any number of batched sub-PDUs -/
+
+/-- a batched sub-PDU (NOPE indication, 8 octets) -/
+def bpduItem : Vals := [("tn", .int 3), ("batch", .int 1), ("shadow", .int 0), ("trxn", .int 5), ("nope", .int 1),
+  ("mod", .int 0), ("tsc", .int 0), ("rssi", .int (-70)), ("toa256", .int (-3)), ("cir", .int 100)]
+
+/-- the primary part of a v2 Rx PDU (NOPE indication, 12 octets) -/
+def v2Primary : Vals := [("ver", .int 2), ("tn", .int 1), ("batch", .int 1), ("trxn", .int 0), ("nope", .int 1),
+  ("mod", .int 0), ("tsc", .int 0), ("rssi", .int (-60)), ("toa256", .int 0), ("cir", .int 0), ("fn", .int 42)]
+
+theorem v2rx_shape : pduV2Rx = ⟨true, [hdr2, mtsSet, .int "rssi" .always 1 .big false 0 (-1),
+    .int "toa256" .always 2 .big true 0 1, .int "cir" .always 2 .big true 0 1, .int "fn" .always 4 .big false 0 1,
+    .buf "soft-bits" (.flagFalse "nope") (.table "mod" burstTable),
+    .seq "bpdu" .always .rest bpduV2Rx]⟩ := rfl
+
+set_option maxRecDepth 8000 in
+theorem bpduItem_inrange (r : Nat) : inRangeFields bpduV2Rx [] bpduItem r = some 8 := by
+  simp [bpduV2Rx, bpduItem, inRangeFields, inRangeField, getPres, FDef.pres, FDef.nStored, FDef.storedNames,
+    bitsDerive, bitsOrdered, bitsLen, bitsOffsets, inRangeBits, Vals.keys, fitsInt, Vals.get,
+    Val.truthy, fdiv_neg_one]
+
+theorem bpduItems_inrange : ∀ k : Nat,
+    inRangeItems (fun iv r => inRangeFields bpduV2Rx [] iv r) (List.replicate k (.dict bpduItem)) = some (8 * k)
+  | 0 => rfl
+  | k + 1 => by
+    simp only [List.replicate_succ, inRangeItems, bpduItems_inrange k, bpduItem_inrange]
+    simp; omega
+
+set_option maxRecDepth 8000 in
+/-- for EVERY k there is an in-range v2 PDU with exactly k batched sub-PDUs (12 + 8k octets) -/
+theorem v2_batched_inrange (k : Nat) :
+    declLen pduV2Rx (v2Primary ++ [("bpdu", .list (List.replicate k (.dict bpduItem)))]) 0 = some (12 + 8 * k) := by
+  rw [v2rx_shape]
+  simp [declLen, v2Primary, hdr2, mtsSet, inRangeFields, inRangeField, getPres, FDef.pres, FDef.nStored,
+    FDef.storedNames, bitsDerive, bitsOrdered, bitsLen, bitsOffsets, inRangeBits, Vals.keys, lenOK, getLen, fitsInt,
+    Vals.get, Val.truthy, fdiv_neg_one, fdiv_one, bpduItems_inrange]
+  omega
+
+/-- A version-2 PDU with ANY number of batched sub-PDUs round-trips with every sub-PDU intact:
+for every in-range value (no bound on the length of `bpdu`) decoding the encoding returns the value — the
+whole list of sub-PDUs included — and such values exist for every k. -/
+theorem v2_batched :
+    (∀ (d : EnvDef), d = pduV2Rx ∨ d = pduV2Tx → ∀ (v : Vals) (items : List Val),
+      v.get "bpdu" = .ok (.list items) → InRange d v 0 →
+      ∃ b, toBytes d v = .ok b ∧ ∃ v', fromBytes d b = .ok (v', b.length) ∧ v' = v
+        ∧ v'.get "bpdu" = .ok (.list items))
+    ∧ (∀ k : Nat, ∃ v b, v.get "bpdu" = .ok (.list (List.replicate k (.dict bpduItem))) ∧ InRange pduV2Rx v 0
+        ∧ toBytes pduV2Rx v = .ok b ∧ b.length = 12 + 8 * k ∧ fromBytes pduV2Rx b = .ok (v, b.length)) := by
+  refine ⟨?_, ?_⟩
+  · intro d hd v items hv hr
+    have hw : WF d := by rcases hd with rfl | rfl; exact pdu_wf.2.2.2.2.1; exact pdu_wf.2.2.2.2.2
+    obtain ⟨b, h1, _, h3⟩ := C16.dec_enc d v hw hr
+    exact ⟨b, h1, v, h3, rfl, hv⟩
+  · intro k
+    have hr := v2_batched_inrange k
+    obtain ⟨b, h1, h2, h3⟩ := C16.dec_enc pduV2Rx _ pdu_wf.2.2.2.2.1 (by unfold InRange; rw [hr]; rfl)
+    refine ⟨_, b, by simp [v2Primary, Vals.get], by unfold InRange; rw [hr]; rfl, h1, ?_, h3⟩
+    rw [hr] at h2; simpa using h2.symm
+
+/-! ## non-vacuity -/
+
+example : InRange pduV0Tx (valsTx 0 7 2715647 255 (List.replicate 148 1)) 0 := by
+  unfold InRange
+  rw [(inrange_tx 0 7 2715647 255 _ (by decide) (by decide) (by decide) (by decide)).1 rfl]; rfl
+
+example : fromBytes pduV0Tx [0x07, 0, 0, 0, 1, 10, 1, 0, 1] = .ok (valsTx 0 7 1 10 [1, 0, 1], 9) := by decide
+example : fromBytes pduV1Tx [0x07, 0, 0, 0, 1, 10, 1, 0, 1] = .error .decode := by decide
+
 end OsmoVerif.Props.C17
